@@ -38,6 +38,7 @@ def steadyFamilies : List String := [
   "graph.wide_mixer_hundreds_of_inputs_again", "graph.dense_dag_96_nodes_again",
   "graph.nested_graph_node_with_wired_inputs_again",
   "graph.repatched_between_calls_same_size_again", "graph.repatched_back_to_mono_same_size_again",
+  "graph.moved_to_another_thread_after_priming_again",
   "graph.process_again_after_a_call_unwound_by_a_failing_user_node",
   "graph.process_again_after_the_missing_node_panic",
   "traits.ring_buffers_debug_clone_eq_while_rotating",
